@@ -28,7 +28,16 @@ type Tuple []Value
 type Struct []Value
 type ArrVal []Value
 
-type Str struct{ b []*Term }
+type Str struct {
+	b   []*Term
+	tag *strTag // structured strings (DESIGN.md section 3.7)
+}
+
+// strTag records that a string is the decimal/clock/date text of terms.
+type strTag struct {
+	kind string // hourmin | date | num
+	vals []*Term
+}
 
 type Iface struct {
 	t types.Type
@@ -110,7 +119,7 @@ func concStr(tt *TermTable, s string) Str {
 	for i := 0; i < len(s); i++ {
 		b[i] = tt.BV(8, uint64(s[i]))
 	}
-	return Str{b}
+	return Str{b: b}
 }
 
 func (s Str) conc() (string, bool) {
